@@ -14,3 +14,26 @@ Proof.
   exists cs. split; [exact Hc|]. intro i. destruct (Hs i) as (ts' & H1 & H2 & _). eauto.
 Qed.
 Print Assumptions C07_boundary_independence.
+
+(** Parser level (proof by interface): every program built from the whitespace-skipping
+    cursor interface — in particular the statement loop over any such statement parser —
+    gives related results (token-for-token equal values; errors equal up to the position text)
+    on two token vectors whose non-whitespace subsequences agree.  That the Rust parsers use
+    only this interface is a conformance fact checked by inventory, not by this theorem. *)
+Require Import SqlV.Machine SqlV.MachineRel SqlV.Provenance SqlV.WsInvariance.
+
+Theorem C07_parser_ws_invariance : forall ts ts' tcf limit rr fuel p d,
+  same_nonws ts ts' -> skipping_only p = true ->
+  Ro err_sim (val_rel tok_sim)
+     (fst (denote rr fuel p d (init_state ts tcf limit)))
+     (fst (denote rr fuel p d (init_state ts' tcf limit))).
+Proof. exact ws_invariance_init. Qed.
+Print Assumptions C07_parser_ws_invariance.
+
+Theorem C07_script_ws_invariance : forall ts ts' A (RA : A -> A -> Prop) (stmt stmt' : M A) tcf limit fuel d,
+  same_nonws ts ts' -> IfaceR tok_sim A RA stmt stmt' ->
+  Ro err_sim (Forall2 RA)
+     (fst (parse_statements fuel stmt d (init_state ts tcf limit)))
+     (fst (parse_statements fuel stmt' d (init_state ts' tcf limit))).
+Proof. exact ws_invariance_statements. Qed.
+Print Assumptions C07_script_ws_invariance.
